@@ -323,6 +323,8 @@ class Lexer():
         # If inside a multiline comment (else None):
         # * the lines of comment, as an array of str (possibly empty)
         self._in_multiline_comment = None
+        # The equals signs in --[===[, to match with closing delim.
+        self._in_multiline_comment_delim = None
         # * the pos of the start of the multiline comment
         self._in_multiline_comment_lineno = None
         self._in_multiline_comment_charno = None
@@ -396,13 +398,15 @@ class Lexer():
 
         elif self._in_multiline_comment is not None:
             try:
-                i = s.index(b']]') + 2
+                closer = b']' + self._in_multiline_comment_delim + b']'
+                i = s.index(closer) + len(closer)
                 self._in_multiline_comment.append(s[:i])
                 self._tokens.append(
                     TokComment(b''.join(self._in_multiline_comment),
                                self._in_multiline_comment_lineno,
                                self._in_multiline_comment_charno))
                 self._in_multiline_comment = None
+                self._in_multiline_comment_delim = None
                 self._in_multiline_comment_lineno = None
                 self._in_multiline_comment_charno = None
 
@@ -429,13 +433,15 @@ class Lexer():
                 self._in_multiline_string.append(s)
                 i = len(s)
 
-        elif s.startswith(b'--[['):
-            # (Multiline comments do not support the [===[ thing that
-            # multiline strings do, so we can match directly.)
-            self._in_multiline_comment = [b'--[[']
+        elif re.match(br'--\[=*\[', s):
+            # (Like multiline strings, the closing bracket must have as many
+            # equals signs as the opening bracket.)
+            m = re.match(br'--\[(=*)\[', s)
+            self._in_multiline_comment = [m.group(0)]
+            self._in_multiline_comment_delim = m.group(1)
             self._in_multiline_comment_lineno = self._cur_lineno
             self._in_multiline_comment_charno = self._cur_charno
-            i = 4
+            i = m.end()
 
         elif re.match(br'\[=*\[', s):
             m = re.match(br'\[(=*)\[', s)
